@@ -8,7 +8,12 @@ to the master".  One run = a seeded history of 6-16 operations: commit in a chec
 tree), `tree.update()`, `tree.pull(master)`, `bind` / `unbind`, a tag set in a checkout,
 re-opening all objects; some bound commits run with a storage error injected at the master's
 put of `last-revision` (offset 0) or at the n-th storage operation after it (offset 1-4: the
-window up to and beyond the local put).
+window up to and beyond the local put).  An independent branch O follows the master and
+adds revisions; checkouts pull it with `local=True` and plainly, with and without
+stop_revision.  "race": both checkouts, in step with the master, commit CONCURRENTLY as two
+actors interleaved at storage operations by the seeded scheduler (random), or by a template
+that suspends the first committer right before it takes the master's write lock - after it
+compared the tips - until the second one is done.
 
 Oracle: a model of the revision graph + master tip + per checkout (local tip, bound flag).
 After EVERY operation both branches' `last_revision_info()`, read from fresh objects, must
@@ -17,7 +22,13 @@ equal the model (tip and revno = length of the left-hand history).  Refusals
 raised exactly when the model says so and leave both branches, the tree's parents, its
 pending changes and its files unchanged.  Under the injected error: the local branch must
 never hold the new revision while the master does not; the master-first outcome is accepted
-and the next `update` must bring local == master."""
+and the next `update` must bring local == master.  Pull from O: the master is judged first
+by the update law (descendant => moves, contains => stays, else DivergedBranches), then the
+local branch; after a plain pull both are at the wanted revision whenever the law says so
+(in particular after `pull --local` left the master behind).  Race: every commit that
+returned normally is in the master's left-hand history as read from the repository, nothing
+that was there is lost, a refused committer (BoundBranchOutOfDate / OutOfDateTree /
+LockContention) keeps its branch, tree and files."""
 
 import json
 import os
@@ -36,7 +47,7 @@ STEP_CAP = 400000
 RULE = (
     "one case = one seeded history (6-16 operations: bound / local / direct-to-master commits, update, pull, bind, unbind, tag, reopen, "
     "optional storage error around the master's tip write of a bound commit) over a master and 1-2 heavyweight checkouts; "
-    "non-trivial = at least one commit met an out-of-date checkout (refusal), or a local-only commit happened, or the injected error fired; "
+    "non-trivial = at least one commit met an out-of-date checkout (refusal), or a local-only commit / pull happened, or the injected error fired, or two checkouts committed concurrently; "
     "distinct = distinct event-log digests of such runs"
 )
 COMPONENTS = {
@@ -56,10 +67,12 @@ COMPONENTS = {
 }
 ASSUMPTIONS = [
     "every commit adds one new file with a name unique to the run, so update / pull never meet content conflicts (a run in which a tree reports conflicts stops without verdict: probe tree_conflicts)",
-    "pull is always `tree.pull(master)`; 'leaves the local branch equal to the master' is asserted when the local tip is an ancestor of the master's tip; when the local branch is ahead of the master (local-only commits) pull is a no-op, when they diverged it must be refused with DivergedBranches and change nothing (equality is impossible without discarding local commits; `update` does that and is asserted unconditionally for bound checkouts)",
+    "pull from the master is `tree.pull(master)`; 'leaves the local branch equal to the master' is asserted when the local tip is an ancestor of the master's tip; when the local branch is ahead of the master (local-only commits) pull is a no-op, when they diverged it must be refused with DivergedBranches and change nothing (equality is impossible without discarding local commits; `update` does that and is asserted unconditionally for bound checkouts)",
     "`update` in an unbound checkout only brings the tree to its own branch; nothing is asserted about the master then",
     "the parents recorded by a commit are read from the real tree before the commit (they feed the model's graph: ancestry decides pull outcomes); they are not judged here (C16 / C09 do)",
     "under an injected error only the ORDER is judged (never local-ahead-of-master) plus convergence by the next update; a tip that moved although commit raised is C01's finding, not judged here",
+    "pull from the independent branch O follows the per-branch update law of C21 (master first, then local); when the master accepts and the local branch then refuses (diverged local-only commits) the master has moved although the pull raised - accepted, as in C21; `pull --local` moves only the local branch",
+    "race: actors share nothing but the stores and their own checkout directory; both trees are in step before; which committer wins is not judged, only that acknowledged revisions are in the master's left-hand history, that it loses nothing, and that a refusal changes nothing for the refused checkout; the parking template uses the virtual clock (the first committer sleeps right before its first write below master/.bzr/branch/lock)",
     "bind performs no divergence check (the docstring promises one, the code and the property text do not); tags are exercised (they add storage operations between the two tip writes) but not judged",
 ]
 
@@ -81,6 +94,7 @@ class Model:
         self.master = NULL
         self.co = {c: {"tip": NULL, "bound": True, "basis": NULL} for c in names}
         self.mbasis = NULL  # basis of M, the lightweight checkout of the master
+        self.other = NULL  # tip of O, an independent branch that follows the master and adds to it
 
     def predict(self, op):
         """{"refusal": None | exception name, "master": tip, "tip": local tip}."""
@@ -114,6 +128,29 @@ class Model:
             return {"refusal": None, "tip": self.master if c["bound"] else c["tip"]}
         return {"refusal": None}
 
+    def law(self, cur, req):
+        """Branch update law without overwrite: (new tip, refusal)."""
+        g = self.g
+        if cur == req or g.is_ancestor(req, cur):
+            return cur, None
+        if g.is_ancestor(cur, req):
+            return req, None
+        return cur, "DivergedBranches"
+
+    def predict_opull(self, c, local, req):
+        """Pull from the OTHER branch into checkout c: the master is judged first (unless
+        local / unbound), then the local branch."""
+        co = self.co[c]
+        if local and not co["bound"]:
+            return {"refusal": "LocalRequiresBoundBranch", "master": self.master, "tip": co["tip"]}
+        master = self.master
+        if co["bound"] and not local:
+            master, ref = self.law(self.master, req)
+            if ref:
+                return {"refusal": ref, "master": self.master, "tip": co["tip"], "who": "master"}
+        tip, ref = self.law(co["tip"], req)
+        return {"refusal": ref, "master": master, "tip": tip, "who": "local" if ref else None}
+
     def state(self):
         return (self.master, tuple(sorted((k, v["tip"], v["bound"]) for k, v in self.co.items())))
 
@@ -132,7 +169,8 @@ def generate(rng, tier):
     n = 0
     for c in names:
         m.co[c]["tip"] = m.co[c]["basis"] = NULL
-    weights = {"commit": 6, "lcommit": rng.choice([0, 2, 3]), "mcommit": rng.choice([1, 2, 3]), "update": 3, "pull": rng.choice([1, 2]), "bind": rng.choice([0, 1, 2]), "tag": rng.choice([0, 1]), "reopen": 1}
+    otip = [NULL]
+    weights = {"other": rng.choice([0, 1, 2, 3]), "race": rng.choice([0, 1, 2]) if len(names) > 1 else 0, "commit": 6, "lcommit": rng.choice([0, 2, 3]), "mcommit": rng.choice([1, 2, 3]), "update": 3, "pull": rng.choice([1, 2]), "bind": rng.choice([0, 1, 2]), "tag": rng.choice([0, 1]), "reopen": 1}
     pool = [k for k, w in sorted(weights.items()) for _ in range(w)]
     nfaults = 0
     first = rng.random() < 0.9
@@ -192,6 +230,48 @@ def generate(rng, tier):
             p = m.predict(op)
             if p["refusal"] is None:
                 co["tip"] = co["basis"] = p["tip"]
+        elif kind == "other":
+            # the OTHER branch moves ahead of the master; the checkout pulls it --local
+            # and / or plainly, with and without an explicit stop_revision
+            if m.master == NULL:
+                continue
+            n += 1
+            ops.append(["ocommit", {"n": n, "sync": True}])
+            orev = "o%d" % n
+            m.g.add(orev, [m.master])
+            otip[0] = orev
+            if rng.random() < 0.4:
+                n += 1
+                ops.append(["ocommit", {"n": n, "sync": False}])
+                m.g.add("o%d" % n, [orev])
+                otip[0] = orev = "o%d" % n
+            seq = rng.choice([[True, False], [True, False], [False], [True], [True, True, False]])
+            for local in seq:
+                stop = rng.choice([None, None, "tip", "parent"])
+                ops.append(["opull", c, {"local": local, "stop": stop}])
+            if co["bound"] and m.g.is_ancestor(co["tip"], orev):
+                co["tip"] = co["basis"] = orev
+                if False in seq:
+                    m.master = orev
+        elif kind == "race":
+            # both checkouts in step, then both commit concurrently
+            for x in names:
+                if not m.co[x]["bound"]:
+                    ops.append(["bind", x])
+                    m.co[x]["bound"] = True
+                ops.append(["update", x])
+            n += 2
+            first_c = rng.choice(names)
+            mode = rng.choice(["park", "park", "park", "random"])
+            ops.append(["race", {"n1": n - 1, "n2": n, "first": first_c, "mode": mode}])
+            winner = [x for x in names if x != first_c][0] if mode == "park" else first_c
+            rev = "r%d" % (n - 1 if winner == first_c else n)
+            m.g.add(rev, [m.master])
+            for x in names:
+                m.co[x]["tip"] = m.co[x]["basis"] = m.master
+                pend[x] = []
+            m.master = rev
+            m.co[winner]["tip"] = m.co[winner]["basis"] = rev
         elif kind == "bind":
             if co["bound"]:
                 ops.append(["unbind", c])
@@ -231,7 +311,7 @@ def _execute(sim, plan):
     sim.disarm()
     world.setup_sim(sim)
     names = plan["names"]
-    roots = {c: cosim.scratch("w", c) for c in names + ["M"]}
+    roots = {c: cosim.scratch("w", c) for c in names + ["M", "O"]}
     cosim.mask_log(sim, roots["M"])
     murl = world.new_store("c23") + MASTER
     master = storesim.make_branch(murl, "2a")
@@ -240,6 +320,15 @@ def _execute(sim, plan):
     for c in names:
         cosim.heavy_checkout(master, roots[c])
     del master
+    ourl = "sim+file://" + roots["O"]
+    if any(op[0] in ("ocommit", "opull") for op in plan["ops"]):
+        from breezy.controldir import ControlDir
+
+        os.makedirs(roots["O"])
+        wt = ControlDir.create_standalone_workingtree(roots["O"], format=storesim.fmt_obj("2a"))
+        with wt.lock_write():
+            wt.set_root_id(T.ROOT_ID)
+        del wt
     m = Model(names)
     trees = {}
 
@@ -411,6 +500,195 @@ def _execute(sim, plan):
                 m.g.add(rev, parents or [])
                 m.master = m.mbasis = rev
             verify(json.dumps(op))
+            continue
+        if kind == "ocommit":
+            a = op[1]
+            if m.master == NULL and m.other == NULL:
+                continue
+            if a.get("sync") or m.other == NULL:
+                try:
+                    tree("O").pull(storesim.open_branch(murl), overwrite=True)
+                except errors.BzrError as e:
+                    raise RuntimeError("set-up pull into O failed: %r" % (e,)) from e
+                if conflicts("O"):
+                    sim.probe("tree_conflicts")
+                    return
+                m.other = cosim.branch_info(ourl)[1]
+            new_file("O", a["n"])
+            rev = "o%d" % a["n"]
+            parents = [x.decode() for x in tree("O").get_parent_ids()]
+            tree("O").commit(message="m " + rev, rev_id=rev.encode(), timestamp=1700000000 + a["n"], timezone=0, committer=cosim.COMMITTER, reporter=T._quiet_reporter())
+            m.g.add(rev, parents)
+            m.other = rev
+            continue
+        if kind == "opull":
+            c = op[1]
+            a = op[2]
+            co = m.co[c]
+            if m.other == NULL:
+                continue
+            req = m.other
+            stop = None
+            if a.get("stop") == "tip":
+                stop = req
+            elif a.get("stop") == "parent":
+                ps = m.g.parents.get(req, [])
+                if ps and ps[0] != NULL:
+                    stop = req = ps[0]
+            local = bool(a.get("local"))
+            p = m.predict_opull(c, local, req)
+            before = snapshot(c)
+            exc = None
+            try:
+                tree(c).pull(storesim.open_branch(ourl), local=local, stop_revision=stop.encode() if stop else None)
+            except errors.BzrError as e:
+                exc = e
+            site = "opull:%s:%s" % ("local" if local else ("bound" if co["bound"] else "unbound"), "stop" if stop else "tip")
+            if p["refusal"]:
+                nontrivial = True
+                if exc is None:
+                    sim.fail("must_refuse", ["must_refuse", "none", site + ":" + p["refusal"]], "%s succeeded; the model expects %s by %s [%s]" % (json.dumps(op), p["refusal"], p.get("who"), state_text()))
+                if type(exc).__name__ != p["refusal"]:
+                    sim.fail("refusal_kind", ["refusal_kind", "none", site + ":" + type(exc).__name__], "%s raised %r; expected %s [%s]" % (json.dumps(op), exc, p["refusal"], state_text()))
+                if p.get("who") != "local":
+                    refused(op, c, before, exc, p["refusal"])
+                else:
+                    sim.probe("refused_by_local_after_master_moved")
+            else:
+                if exc is not None:
+                    sim.fail("op_raised", ["op_raised", "none", site + ":" + type(exc).__name__], "%s raised %r [%s]" % (json.dumps(op), exc, state_text()))
+                if conflicts(c):
+                    sim.probe("tree_conflicts")
+                    return
+            was = (m.master, co["tip"])
+            m.master = p["master"]
+            if co["tip"] != p["tip"]:
+                co["tip"] = co["basis"] = p["tip"]
+            sim.probe("opull_%s" % ("local" if local else "plain"))
+            if local and co["tip"] != m.master:
+                nontrivial = True
+            label = json.dumps(op) + " (wanted %s; before: master=%s local=%s)" % (req, was[0], was[1])
+            verify(label, "none", site)
+            if not local and co["bound"] and not p["refusal"] and m.master == req and co["tip"] == req:
+                sim.probe("plain_pull_equalised")
+            continue
+        if kind == "race":
+            a = op[1]
+            if len(names) < 2 or any((not v["bound"]) or v["tip"] != m.master or v["basis"] != v["tip"] for v in m.co.values()):
+                sim.event("skip", i, "race-needs-two-checkouts-in-step")
+                continue
+            nontrivial = True
+            first_c = a["first"]
+            second_c = [x for x in names if x != first_c][0]
+            ns = {first_c: a["n1"], second_c: a["n2"]}
+            parents = {}
+            for c in (first_c, second_c):
+                new_file(c, ns[c])
+                parents[c] = [x.decode() for x in tree(c).get_parent_ids()]
+            before = {c: snapshot(c) for c in (first_c, second_c)}
+            old_master = m.master
+            old_lh = m.g.lefthand(old_master)
+            reopen()
+            results = {}
+            actor_names = {c: "%s@%d" % (c, i) for c in (first_c, second_c)}
+            park = {"done": False}
+
+            def make(c, delay):
+                def fn():
+                    cosim.start_tracking()
+                    try:
+                        if delay:
+                            sim.sleep(delay)
+                        t = T.open_tree(roots[c], "bzr")
+                        try:
+                            t.commit(message="m r%d" % ns[c], rev_id=b"r%d" % ns[c], timestamp=1700000000 + ns[c], timezone=0, committer=cosim.COMMITTER, reporter=T._quiet_reporter())
+                            results[c] = None
+                        except (SimCrash, KeyboardInterrupt, SystemExit):
+                            raise
+                        except Exception as e:  # noqa: BLE001 - judged below
+                            results[c] = e
+                        del t
+                    finally:
+                        cosim.dispose_repos()
+
+                return fn
+
+            def mon(s, actor, phase, opname, path, extra):
+                # template: the first committer is suspended right before it takes the master's
+                # write lock (after it compared the tips); the second one then runs alone
+                if phase == "before" and not park["done"] and actor.name == actor_names[first_c] and opname == "mkdir" and path.startswith("/" + MASTER + "/.bzr/branch/lock/"):
+                    park["done"] = True
+                    s.sleep(500.0)
+
+            parked = a.get("mode") == "park"
+            if parked:
+                sim.monitors.append(mon)
+            sim.sched_policy = "random"
+            sim.spawn(actor_names[first_c], make(first_c, 0))
+            sim.spawn(actor_names[second_c], make(second_c, 1.0 if parked else 0))
+            # (incarnations of the main actor created by restart_main() are in sim.actors under
+            # other names and the scheduler would take them for runnable actors: out of its sight)
+            mains = {nm: ac for nm, ac in sim.actors.items() if nm.startswith("main#")}
+            for nm in mains:
+                del sim.actors[nm]
+            try:
+                sim.run_actors()
+            finally:
+                sim.actors.update(mains)
+                if parked:
+                    sim.monitors.remove(mon)
+            for c in (first_c, second_c):
+                ex = sim.actors[actor_names[c]].exc
+                if ex is not None:
+                    raise RuntimeError("actor %s died: %r" % (c, ex))
+            sim.probe("race_" + a.get("mode", "random") + ("_parked" if park["done"] else ""))
+            reopen()
+            acked = [c for c in (first_c, second_c) if results.get(c, "missing") is None]
+            sim.event("race", ",".join("%s:%s" % (c, "ok" if results[c] is None else type(results[c]).__name__) for c in (first_c, second_c)))
+            # the master's left-hand history as the repository has it
+            mb = storesim.open_branch(murl)
+            with mb.lock_read():
+                mrevno, mtip = mb.last_revision_info()
+                real_lh = [r.decode() for r in mb.repository.get_graph().iter_lefthand_ancestry(mtip) if r != b"null:"]
+            site = "race:" + a.get("mode", "random")
+            for r in old_lh:
+                if r not in real_lh:
+                    sim.fail("master_history_kept", ["master_history_kept", "preempt", site + ":old-revision-lost"], "after %s the master's left-hand history %r no longer holds %s [%s]" % (json.dumps(op), real_lh, r, state_text()))
+            for c in acked:
+                rev = "r%d" % ns[c]
+                if rev not in real_lh:
+                    others = {x: ("ok" if results[x] is None else type(results[x]).__name__) for x in results}
+                    sim.fail(
+                        "acknowledged_commit_in_master",
+                        ["acknowledged_commit_in_master", "preempt", site + ":acknowledged-revision-lost"],
+                        "%s: the commit of %s in checkout %s returned normally, but the master's left-hand history is %r (tip %s, revno %d); outcomes %r [%s]" % (json.dumps(op), rev, c, real_lh, mtip.decode(), mrevno, others, state_text()),
+                    )
+            for c in (first_c, second_c):
+                rev = "r%d" % ns[c]
+                if c in acked:
+                    m.g.add(rev, parents[c])
+                    m.co[c]["tip"] = m.co[c]["basis"] = rev
+                    continue
+                ex = results[c]
+                if type(ex).__name__ not in ("BoundBranchOutOfDate", "OutOfDateTree", "LockContention"):
+                    sim.fail("refusal_kind", ["refusal_kind", "preempt", site + ":" + type(ex).__name__], "%s: the commit in %s raised %r [%s]" % (json.dumps(op), c, ex, state_text()))
+                sim.probe("race_refused_" + type(ex).__name__)
+                after = snapshot(c)
+                for key in ("local", "tree", "disk"):
+                    if before[c][key] != after[key]:
+                        sim.fail("refusal_changes_nothing", ["refusal_changes_nothing", "preempt", site + ":" + type(ex).__name__ + ":" + key], "%s: the commit in %s was refused (%s) but %s changed: %r -> %r" % (json.dumps(op), c, type(ex).__name__, key, before[c][key], after[key]))
+                tree(c).revert(backups=False)
+                left = os.path.join(roots[c], "%s%d" % (c.lower(), ns[c]))
+                if os.path.lexists(left):
+                    os.unlink(left)
+            if len(acked) == 2:
+                sim.probe("race_both_acknowledged")
+            if not acked:
+                sim.probe("race_none_acknowledged")
+            m.master = mtip.decode()
+            if m.master not in m.g.parents and m.master != NULL:
+                raise RuntimeError("master at an unknown revision %s" % m.master)
+            verify(json.dumps(op), "preempt", site)
             continue
         c = op[1]
         co = m.co[c]
@@ -596,6 +874,19 @@ WARM_PLAN = {
         ["commit", "A", {"local": False, "n": 13, "fault": {"off": 0, "err": "enospc"}}],
         ["recover", "A"],
         ["reopen"],
+        ["update", "A"],
+        ["update", "B"],
+        ["ocommit", {"n": 14, "sync": True}],
+        ["ocommit", {"n": 15, "sync": False}],
+        ["opull", "A", {"local": True, "stop": "parent"}],
+        ["opull", "A", {"local": False, "stop": "parent"}],
+        ["opull", "A", {"local": True, "stop": None}],
+        ["opull", "A", {"local": False, "stop": "tip"}],
+        ["update", "B"],
+        ["race", {"n1": 16, "n2": 17, "first": "A", "mode": "park"}],
+        ["update", "A"],
+        ["update", "B"],
+        ["race", {"n1": 18, "n2": 19, "first": "B", "mode": "random"}],
     ],
 }
 
